@@ -9,6 +9,7 @@ import HcipyVerif.Lemmas.Axes
 import HcipyVerif.Lemmas.FftSelect
 import HcipyVerif.Lemmas.FftState
 import HcipyVerif.Lemmas.FftPlan
+import HcipyVerif.Lemmas.ZoomN
 
 /-!
 # C01 — every Fourier transform evaluates the same weighted Fourier sum
@@ -214,6 +215,76 @@ theorem zoom_axis_eq_sum' (hE : IsChar E) (h2 : (2 : K) ≠ 0) (n m nfft : ℕ) 
     zoomAxis n m nfft E x0 δ u0 Δ f k = zoomSum n E x0 δ u0 Δ f k :=
   zoom_axis_eq_sum hE h2 n m nfft hn hnfft x0 δ u0 Δ f k hk
 
+/-- **MatrixFourierTransform.backward (2-D), both weight branches** (`Weights.get` is the scalar or
+the array entry). -/
+theorem mft_backward_eq_sum_2d_weights (hE : IsChar E) (cj : C → C) (hcj : ∀ a, cj (E a) = E (-a))
+    (Nx Ny Nu Nv : ℕ) (x y u v : ℕ → K) (wOut : Weights C) (F : ℕ → C) (ix iy : ℕ) (hix : ix < Nx) :
+    mftBackward E cj Nx Ny Nu Nv x y u v wOut F (iy * Nx + ix)
+      = ∑ iv ∈ range Nv, ∑ iu ∈ range Nu,
+          F (iv * Nu + iu) * wOut.get (iv * Nu + iu) * E (u iu * x ix + v iv * y iy) :=
+  mft_backward_eq_sum_2d_get hE cj hcj Nx Ny Nu Nv x y u v wOut F hix
+
+/-- **MatrixFourierTransform, ndim = 1** (`np.dot(M, field*weights)` and
+`np.dot(M.conj().T, field*weights_output)`): forward and backward evaluate the 1-D sums, arbitrary
+coordinates, both weight branches. -/
+theorem mft_eq_sum_1d (cj : C → C) (hcj : ∀ a, cj (E a) = E (-a)) (Nx Nu : ℕ) (x u : ℕ → K)
+    (w wOut : Weights C) (f F : ℕ → C) (iu ix : ℕ) :
+    mftForward1 E Nx x u w f iu = ∑ jx ∈ range Nx, f jx * w.get jx * E (-(u iu * x jx)) ∧
+    mftBackward1 E cj Nu x u wOut F ix = ∑ ju ∈ range Nu, F ju * wOut.get ju * E (u ju * x ix) :=
+  ⟨mft_forward_eq_sum_1d Nx x u w f iu, mft_backward_eq_sum_1d cj hcj Nu x u wOut F ix⟩
+
+/-- **ZoomFFT, one axis, whatever branch the code's powers use**: `w**(k²/2)` and `a**(-k)` are
+computed from the complex numbers `w = exp(-iΔδ)`, `a = exp(i·u₀δ)`, i.e. with *some*
+representatives `ω'`, `α'` with `E ω' = E(-(Δδ))`, `E α' = E(u₀δ)` (numpy: principal values, which
+differ from `-(Δδ)` as soon as `|Δδ| > π`).  For every such pair the Bluestein pipeline times the
+shift is the defining sum — `zoomChirp` (driver op `zoomchirp`) gives the canonical pair. -/
+theorem zoom_eq_sum_any_branch (hE : IsChar E) (h2 : (2 : K) ≠ 0) (n m nfft : ℕ)
+    (hn : 0 < n) (hnfft : n + m - 1 ≤ nfft) (x0 δ u0 Δ ω' α' : K)
+    (hω : E ω' = E (zoomChirp δ u0 Δ).1) (hα : E α' = E (zoomChirp δ u0 Δ).2)
+    (f : ℕ → C) (k : ℕ) (hk : k < m) :
+    cztBluestein n m nfft E ω' α' f k * E (-((u0 + (k : K) * Δ) * x0))
+      = zoomSum n E x0 δ u0 Δ f k :=
+  zoom_eq_sum_branch hE h2 n m nfft hn hnfft x0 δ u0 Δ ω' α' hω hα f k hk
+
+/-- **ZoomFastFourierTransform.forward on `n` axes, including `field * input_weights`**: the
+axis loop (`czt(f)·shift` on every axis, Model/ZoomN.lean) evaluates the `n`-D defining sum
+`Σ_js f(js)·w(js)·exp(-i·Σ_i (u0_i + k_i Δ_i)(x0_i + j_i δ_i))`, for every list of axes, all
+`nfft_i ≥ n_i + m_i - 1`, per-point weights, every in-range output index list. -/
+theorem zoom_forward_nd_eq_sum (hE : IsChar E) (h2 : (2 : K) ≠ 0) (axs : List (ZAx K))
+    (haxs : ∀ a ∈ axs, 0 < a.n ∧ a.n + a.m - 1 ≤ a.nfft)
+    (w f : List ℕ → C) (ks : List ℕ) (hks : List.Forall₂ (fun k a => k < a.m) ks axs) :
+    zoomForwardN E axs w f ks = zoomSumForwardN E axs w f ks :=
+  zoomN_eq_sumN hE h2 axs haxs w f ks hks
+
+/-- **ZoomFastFourierTransform.backward on `n` axes, including `field * output_weights`**
+(`wOut = output_grid.weights/(2π)^n`). -/
+theorem zoom_backward_nd_eq_sum (hE : IsChar E) (h2 : (2 : K) ≠ 0) (axs : List (ZAx K))
+    (haxs : ∀ a ∈ axs, 0 < a.m ∧ a.m + a.n - 1 ≤ a.nfftInv)
+    (wOut F : List ℕ → C) (js : List ℕ) (hjs : List.Forall₂ (fun j a => j < a.n) js axs) :
+    zoomBackwardN E axs wOut F js = zoomSumBackwardN E axs wOut F js :=
+  zoomN_backward_eq_sumN hE h2 axs haxs wOut F js hjs
+
+/-- the `n`-axis forward loop run with arbitrary admissible branches `(ω'_i, α'_i)` per axis (the
+loop as numpy executes it) evaluates the same `n`-D sum -/
+theorem zoom_forward_nd_any_branch_eq_sum (hE : IsChar E) (h2 : (2 : K) ≠ 0)
+    (axs : List (ZAx K × K × K))
+    (haxs : ∀ p ∈ axs, 0 < p.1.n ∧ p.1.n + p.1.m - 1 ≤ p.1.nfft ∧
+      E p.2.1 = E (-(p.1.Δ * p.1.δ)) ∧ E p.2.2 = E (p.1.u0 * p.1.δ))
+    (w f : List ℕ → C) (ks : List ℕ) (hks : List.Forall₂ (fun k p => k < p.1.m) ks axs) :
+    zoomLoopBranchN E axs (fun js => f js * w js) ks
+      = zoomSumForwardN E (axs.map Prod.fst) w f ks :=
+  zoomN_branch_eq_sumN hE h2 axs haxs w f ks hks
+
+/-- **MatrixFourierTransform (2-D) = ZoomFastFourierTransform (2 axes)** on regular separated
+grids, both weight branches of the MFT (flat C-ordered indices `iy·Nx+ix`, `iv·Nu+iu`). -/
+theorem mft_eq_zoom_2d' (hE : IsChar E) (h2 : (2 : K) ≠ 0) (ay ax : ZAx K)
+    (hy : 0 < ay.n ∧ ay.n + ay.m - 1 ≤ ay.nfft) (hx : 0 < ax.n ∧ ax.n + ax.m - 1 ≤ ax.nfft)
+    (w : Weights C) (f : ℕ → C) (iv iu : ℕ) (hiv : iv < ay.m) (hiu : iu < ax.m) :
+    mftForward E ax.n ay.n ax.m ay.m (fun i => ax.x0 + (i : K) * ax.δ) (fun i => ay.x0 + (i : K) * ay.δ)
+        (fun k => ax.u0 + (k : K) * ax.Δ) (fun k => ay.u0 + (k : K) * ay.Δ) w f (iv * ax.m + iu)
+      = zoomForwardN E [ay, ax] (flat2 ax.n w.get) (flat2 ax.n f) [iv, iu] :=
+  mft_eq_zoom_2d hE h2 ay ax hy hx w f iv iu hiv hiu
+
 end abstract
 
 /-- **ZoomFFT axis bookkeeping (repaired code)**: for every tensor rank and every number of
@@ -360,6 +431,45 @@ theorem fast_backward_eq_fourier_sum (g : Cfg ℝ ℂ) (hN : g.N ≤ g.M) (hMo :
   congr 1
   push_cast
   ring
+
+/-! ### "Consequently all implementations agree" -/
+
+/-- **FastFourierTransform = MatrixFourierTransform = ZoomFastFourierTransform = naive sum**
+(`Complex.exp`, one axis): on a consistent FFT axis, with output coordinates `u_k = 2π·a_k + s`,
+for every in-range output sample and every `nfft ≥ N + Mo - 1`. -/
+theorem implementations_agree' (g : Cfg ℝ ℂ) (hN0 : 0 < g.N) (hN : g.N ≤ g.M) (hMo : g.Mo ≤ g.M)
+    (hcons : g.dT * (g.M : ℝ) * g.δ = 1) (nfft : ℕ) (hnfft : g.N + g.Mo - 1 ≤ nfft)
+    (f : ℕ → ℂ) (k : ℕ) (hk : k < g.Mo) :
+    fastForward expT expE g f k
+        = mftForward1 expE g.N g.x (fun k => 2 * Real.pi * g.a k + g.s) (.scalar g.w) f k
+    ∧ fastForward expT expE g f k
+        = zoomAxis g.N g.Mo nfft expE g.z g.δ (2 * Real.pi * g.a 0 + g.s) (2 * Real.pi * g.dT)
+            (fun j => f j * g.w) k
+    ∧ fastForward expT expE g f k
+        = ∑ j ∈ range g.N, f j * g.w *
+            Complex.exp (-(Complex.I * (((2 * Real.pi * g.a k + g.s : ℝ) : ℂ) * ((g.x j : ℝ) : ℂ)))) :=
+  implementations_agree g hN0 hN hMo hcons nfft hnfft f k hk
+
+/-- **… on `n` axes**: the iterated FFT pipeline = the `n`-axis zoom loop on the same grids (fed
+with `field * weights`) = the `n`-D defining sum. -/
+theorem implementations_agree_nd' (nf : Cfg ℝ ℂ → ℕ) (gs : List (Cfg ℝ ℂ))
+    (hgs : ∀ g ∈ gs, 0 < g.N ∧ g.N ≤ g.M ∧ g.Mo ≤ g.M ∧ g.dT * (g.M : ℝ) * g.δ = 1 ∧
+      g.N + g.Mo - 1 ≤ nf g)
+    (f : List ℕ → ℂ) (ks : List ℕ) (hks : List.Forall₂ (fun k g => k < g.Mo) ks gs) :
+    fastForwardN expT expE gs f ks
+        = zoomForwardN expE (gs.map (Cfg.toZAx (2 * Real.pi) nf)) (fun _ => weightN gs) f ks
+    ∧ fastForwardN expT expE gs f ks = sumForwardN expT expE gs f ks :=
+  implementations_agree_nd nf gs hgs f ks hks
+
+/-- **ZoomFFT, one axis, `Complex.exp`, every branch** `ω' = -Δδ + 2π·nω`, `α' = u₀δ + 2π·nα`
+(in particular numpy's principal values). -/
+theorem zoom_eq_fourier_sum_any_branch (n m nfft : ℕ) (hn : 0 < n) (hnfft : n + m - 1 ≤ nfft)
+    (x0 δ u0 Δ : ℝ) (nω nα : ℤ) (f : ℕ → ℂ) (k : ℕ) (hk : k < m) :
+    cztBluestein n m nfft expE (-(Δ * δ) + 2 * Real.pi * (nω : ℝ)) (u0 * δ + 2 * Real.pi * (nα : ℝ))
+        f k * expE (-((u0 + (k : ℝ) * Δ) * x0))
+      = ∑ i ∈ range n, f i *
+          Complex.exp (-(Complex.I * (((u0 + (k : ℝ) * Δ : ℝ) : ℂ) * ((x0 + (i : ℝ) * δ : ℝ) : ℂ)))) :=
+  zoom_eq_sum_branch_exp n m nfft hn hnfft x0 δ u0 Δ nω nα f k hk
 
 /-! ### Hypothesis-free: the configuration comes out of `plan`
 
